@@ -16,6 +16,8 @@ PROP = "C06"
 
 def compare_all(eng, ctx, cfg, stream, pairs=False, bytewise=True):
     n = len(stream)
+    ctx.intend({"kind": "hdlc", "cfg": list(cfg), "chunks": [stream], "chunks2": [stream[:n // 2], stream[n // 2:]]},
+               alts=lambda: ({"kind": "hdlc", "cfg": list(cfg), "chunks": [stream], "chunks2": HC.split(stream, c)} for c in [(k,) for k in range(1, n)] + ([tuple(range(1, n))] if n > 2 else [])))
     _, fa = HC.read_chunks(cfg, [stream])
     a = HC.sig(fa)
     ctx.witness = {"kind": "hdlc", "cfg": list(cfg), "chunks": [stream], "chunks2": [stream[:n // 2], stream[n // 2:]]}
